@@ -660,7 +660,7 @@ def gen_C14(rng, tier, changed):
         for (r2, c2) in shapes:
             for o1 in (0, 1):
                 for o2 in (0, 1):
-                    if tier == 'quick' and (r1 * 7 + c1 * 5 + r2 * 3 + c2 + o1 + o2) % 2:
+                    if tier == 'quick' and (r1, c1) != (r2, c2) and (r1, c1) != (c2, r2) and rng.random() < 0.5:
                         continue
                     sh = Shadow()
                     ops = build(sh, 0, r1, c1, o1, how='rowreshape') + build(sh, 1, r2, c2, o2, how='rowreshape')
@@ -756,7 +756,7 @@ def run_suite(pid, suite, rng, tier, profiles, workdir, changed):
     for prof in profiles:
         for c in cases:
             c.debug = 1 if prof == 'debug' else 0
-        t_budget = 900 if tier == 'quick' else 3000
+        t_budget = 240 if tier == 'quick' else 1800
         hres, crashes = C.run_harness(cases, workdir, prof, timeout=t_budget, tag=f'cases-{prof}')
         mres = C.run_model(cases, workdir, tag=f'cases-{prof}') if not suite.get('no_model') else {}
         for c in cases:
@@ -769,13 +769,22 @@ def run_suite(pid, suite, rng, tier, profiles, workdir, changed):
             for o in c.ops:
                 dist[o[1]] = dist.get(o[1], 0) + 1
             hl_ops = [l for l in hl if not (l == 'E' or l.startswith('E '))]
-            findings = C.compare_case(c, hl if hl else [], ml[:-1] if ml else ml)
-            if suite.get('oracle'):
-                findings += suite['oracle'](c, hl_ops)
+            if c.elem == 'k':
+                findings = compare_K(c, hl, ml)
+            else:
+                findings = C.compare_case(c, hl if hl else [], ml[:-1] if ml else ml)
+                if suite.get('oracle'):
+                    findings += suite['oracle'](c, hl_ops)
             if any(' ;; ' in l and not l.startswith('INVALID') for l in hl):
                 nontrivial_keys.add(case_key(c))
             for f in findings[:3]:
                 violations.append(mk_violation(pid, c, f, prof))
+            if c.elem == 'k':
+                if len(samples) < 6 and evaluations % 97 == 1:
+                    samples.append(dict(case=c.id, call=c.text().strip(), observed=hl[:1]))
+                nontrivial_keys.add(c.text().split(' ', 2)[2])
+                dist[c.fn] = dist.get(c.fn, 0) + 1
+                continue
             if len(samples) < 6 and (len(c.ops) <= 12 or evaluations % 37 == 1):
                 samples.append(dict(case=c.id, elem=c.elem, ops=[C_line(o) for o in c.ops][:10], observed=[x[:200] for x in (hl or [''])[:10]]))
         if suite.get('post'):
@@ -809,6 +818,9 @@ def mk_violation(pid, case, f, prof):
     kind = f.get('kind')
     what = f"{f.get('op')}: {f.get('detail')}"
     upto = f.get('op_index', len(case.ops))
+    if case.elem == 'k':
+        return dict(kind=kind, what=what, profile=prof, failing_input=dict(case=case.id, call=case.text().strip(), debug=case.debug),
+                    observed=f.get('observed'), expected=f.get('expected'), known_key=f.get('known_key'))
     # the failing input: the history up to and including the failing operation
     ops_txt = []
     k = -1
@@ -1270,8 +1282,18 @@ def gen_C16(rng, tier, changed):
                 ops += [op('par_map_ref', 2, 0, 2), op('map_ref', 3, 1, 2), op('eq', 2, 3)]
                 ops += [op('par_iter_elements', 0), op('par_iter_elements_idx', 0), op('par_iter_elements_mut', 0, 0), op('par_iter_elements_mut_idx', 1, 0), op('eq', 0, 1)]
                 ops += [op('par_map', 2, 2, 0), op('map', 3, 3, 0), op('eq', 2, 3), op('into_par_iter_elements', 2), op('into_par_iter_elements_idx', 3)]
-                cases.append(Case(f'C16-{k}', ops, 'tr', threads=t, delay=delay))
+                cases.append(Case(f'C16-{k}', ops, 'tr' if (k % 5 or n > 300) else rng.choice(['zd', 'unit', 'w24']), threads=t, delay=delay,
+                                  meta=dict(no_model=(n > 1200))))
                 k += 1
+    # CapacityOverflow in the same cases as the sequential forms: zero-sized and sized sources, every target size
+    kk = 0
+    for es_src in (0, 1, 8, 24):
+        for es_dst in ES:
+            for size in ([0, 1, 6, 64] + ([IMAX // max(1, es_dst) + 1, UMAX, 2**63] if es_src == 0 else [])):
+                want = f'Some([1,{size},{size}])' if es_dst * size <= IMAX else 'Err(CapacityOverflow)'
+                for which in (0, 1, 6, 7):
+                    cases.append(KCase(f'C16-k{kk}', 'mapfam', [which, es_src, es_dst, size], meta=dict(want=want)))
+                    kk += 1
     return cases
 
 
@@ -1656,3 +1678,221 @@ SUITES.update({
     'C20': dict(gen=gen_C20, oracle=oracle_C20, files=['src/fmt.rs'],
                 rule='shapes <= 3x3 plus degenerate and 1x5/5x1, both orders, renderings from a pool (empty, ASCII, multi-byte, multi-line, CRLF, trailing newline)'),
 })
+
+
+# =============================================================================================
+# C03: mutable row/column iterators, every interleaving of next / next_back / len
+def all_nested_scripts(nvec, length):
+    """every command sequence of the given length over the outer iterator and the inner iterators produced so far"""
+    out = []
+
+    def rec(prefix, produced, remaining, k):
+        if k == 0:
+            out.append(prefix)
+            return
+        for w in (0, 1, 2):
+            np, nr = produced, remaining
+            if w != 2 and remaining > 0:
+                np, nr = produced + 1, remaining - 1
+            rec(prefix + [-1, w], np, nr, k - 1)
+        for i in range(produced):
+            for w in (0, 1, 2):
+                rec(prefix + [i, w], produced, remaining, k - 1)
+    rec([], 0, nvec, length)
+    return out
+
+
+def gen_C03(rng, tier, changed):
+    cases = []
+    shapes = [(r, c) for r in range(1, 5) for c in range(1, 5)] + [(1, 7), (7, 1), (2, 9)]
+    k = 0
+    for (r, c) in shapes:
+        for order in (0, 1):
+            for elem in ('tr', 'w24', 'unit', 'zd'):
+                if tier == 'quick' and elem in ('unit', 'zd') and (r + c + order) % 2:
+                    continue
+                sh = Shadow()
+                ops = build(sh, 0, r, c, order, how='rowreshape')
+                for nm, nvec, vlen in (('iter_rows_mut', r, c), ('iter_cols_mut', c, r)):
+                    # exhaust everything front to back, back to front, and interleaved
+                    drain = sum(([-1, 0] for _ in range(nvec + 1)), []) + sum(([i, w] for i in range(nvec) for w in [2] + [0] * (vlen + 1) + [2]), [])
+                    ops.append(op(nm, 0, 1, rows=[drain]))
+                    drain_b = sum(([-1, 1, -1, 2] for _ in range(nvec + 1)), []) + sum(([i, 1, i, 2] for _ in range(vlen + 1) for i in range(nvec)), [])
+                    ops.append(op(nm, 0, 2, rows=[drain_b]))
+                    for _ in range(3 if tier == 'quick' else 12):
+                        ops.append(op(nm, 0, rng.randrange(3), rows=[safe_nested_script(rng, rng.randint(5, 60), nvec)]))
+                cases.append(Case(f'C03-{k}', ops, elem))
+                k += 1
+    # every command sequence up to a length on the smallest shapes
+    L = 4 if tier == 'quick' else 5
+    for (r, c) in [(1, 1), (1, 2), (2, 1), (2, 2)]:
+        for order in (0, 1):
+            for nm, nvec in (('iter_rows_mut', r), ('iter_cols_mut', c)):
+                sh = Shadow()
+                ops = build(sh, 0, r, c, order, how='rowreshape')
+                for scr in all_nested_scripts(nvec, L):
+                    ops.append(op(nm, 0, 0, rows=[scr]))
+                cases.append(Case(f'C03-x{r}x{c}o{order}{nm[5]}', ops, 'w24' if order else 'tr'))
+    return cases
+
+
+def oracle_C03(case, hlines):
+    out = oracle_C06(case, hlines) if case.elem in ('tr', 'w24') else []
+    # zero-sized elements: counts and lengths only
+    if case.elem in ('unit', 'zd'):
+        ops = [o for o in case.ops if o[1] != 'fault']
+        prev = None
+        for i, (o, line) in enumerate(zip(ops, hlines)):
+            if prev is not None and o[1] in ('iter_rows_mut', 'iter_cols_mut'):
+                slot = parse_slot(prev, o[2][0])
+                if slot:
+                    rows = [['_'] * slot[2] for _ in range(slot[1])]
+                    vecs = rows if o[1] == 'iter_rows_mut' else transpose_rows(rows, slot[2])
+                    want = sim_nested(vecs, o[3][0])
+                    if obs_of(line) != want:
+                        out.append(dict(kind='oracle', op_index=i, op=o[1], observed=obs_of(line)[:300], expected=want[:300],
+                                        detail='zero-sized elements: wrong number of items or wrong len()'))
+            prev = line
+    return out
+
+
+SUITES['C03'] = dict(gen=gen_C03, oracle=oracle_C03, files=['src/iter/iter_mut.rs', 'src/iter.rs'],
+                     rule='shapes <= 4x4 and 1x7, 7x1, 2x9, both orders, both axes, element types of size 40/24/0/0 (with and without drop glue); '
+                          'every command sequence up to length 4-5 on shapes <= 2x2 and random sequences up to length 60 with all inner iterators alive; '
+                          'pointer events from the verif-hooks recorder range-checked inside the harness')
+
+
+# =============================================================================================
+# C08: size / capacity decisions on extreme arguments (K cases)
+from ops import KCase  # noqa: E402
+
+ES = [0, 1, 2, 4, 8, 16, 24]
+
+
+def boundary_values(es=None):
+    b = {0, 1, 2, 3, 2**16 - 1, 2**16, 2**16 + 1, 2**31 - 1, 2**31, 2**32 - 1, 2**32, 2**32 + 1, 2**33 - 1, 2**33, 2**33 + 1,
+         2**62, 2**63 - 2, IMAX - 1, IMAX, IMAX + 1, UMAX - 1, UMAX, 3037000499, 3037000500, 4294967295 * 2}
+    for e in ([es] if es else [1, 2, 4, 8, 16, 24]):
+        if e:
+            b |= {IMAX // e - 1, IMAX // e, IMAX // e + 1}
+    return sorted(b)
+
+
+def expect_decision(es, r, c):
+    if r * c > UMAX:
+        return 'Err(SizeOverflow)'
+    if es * r * c > IMAX:
+        return 'Err(CapacityOverflow)'
+    return f'Some([{r},{c},{r * c}])'
+
+
+def gen_C08(rng, tier, changed):
+    cases = []
+    k = 0
+
+    def add(fn, args, want, **meta):
+        nonlocal k
+        cases.append(KCase(f'C08-{k}', fn, args, meta=dict(want=want, **meta)))
+        k += 1
+    B = boundary_values()
+    for es in ES:
+        for size in boundary_values(es or None):
+            add('check_size', [es, size], f'Some({size})' if es * size <= IMAX else 'Err(CapacityOverflow)')
+    pairs = [(r, c) for r in B for c in B]
+    if tier == 'quick':
+        pairs = [p for p in pairs if p[0] * p[1] > IMAX // 24 or p[0] <= 3 or p[1] <= 3 or rng.random() < 0.15]
+    for (r, c) in pairs:
+        for o in (0, 1):
+            want = 'Err(SizeOverflow)' if r * c > UMAX else (f'Some([{r},{c}])' if o == 0 else f'Some([{c},{r}])')
+            add('try_to_axis_shape', [r, c, o], want)
+    # constructors and resize: every failing pair through the real entry points; successes only where the call is cheap
+    for es in ES:
+        for (r, c) in pairs:
+            want = expect_decision(es, r, c)
+            ok = want.startswith('Some')
+            for which in (0, 1, 2, 3, 4):
+                if ok and not (r * c <= 2048 or (which == 1 and es == 0)):
+                    continue
+                if tier == 'quick' and not ok and rng.random() < 0.6:
+                    continue
+                add('ctor', [which, es, r, c], want)
+    for es in ES:
+        for r in (0, 1, 2, 3, 5):
+            for c in ([0, 1, 2, 7] + ([2**62, 2**63, UMAX, UMAX // 2 + 1, 2**64 // 3 + 1, IMAX] if es == 0 else [])):
+                want = expect_decision(es, r, c) if r > 0 else 'Some([0,0,0])'
+                if want.startswith('Some') and r * c > 2048:
+                    continue
+                for which in (5, 6):
+                    add('ctor', [which, es, r, c], want)
+    # reshape: any size that differs from the current one, including overflowing ones, is SizeMismatch
+    for (r0, c0) in [(0, 0), (1, 1), (2, 3), (1, UMAX), (UMAX, 1), (2**32, 2**31), (2**32, 2**32 - 1), (3, 0), (0, UMAX), (1, IMAX + 1)]:
+        for (r, c) in pairs if tier != 'quick' else rng.sample(pairs, 300) + [(c0, r0), (r0, c0), (1, r0 * c0), (r0 * c0, 1), (0, 0), (UMAX, 0), (0, UMAX), (2, 2**63), (2**32, 2**32)]:
+            if r0 * c0 > 64 and not (r0 * c0 <= UMAX):
+                continue
+            es = 0 if r0 * c0 > 64 else rng.choice([0, 1, 8])
+            for o in (0, 1):
+                if r > UMAX or c > UMAX:
+                    continue
+                want = f'Some([{r},{c},{r0 * c0}])' if (r * c <= UMAX and r * c == r0 * c0) else 'Err(SizeMismatch)'
+                add('reshape', [es, r0, c0, o, r, c], want)
+    # mapping-style operations: CapacityOverflow exactly when the OUTPUT byte size exceeds isize::MAX
+    for which in range(8):
+        for es_dst in ES:
+            for size in boundary_values(es_dst or None):
+                want = f'Some([1,{size},{size}])' if es_dst * size <= IMAX else 'Err(CapacityOverflow)'
+                if want.startswith('Some') and size > 2048:
+                    continue
+                add('mapfam', [which, 0, es_dst, size], want)
+        for es_src in (1, 8, 24):
+            for es_dst in ES:
+                add('mapfam', [which, es_src, es_dst, rng.choice([0, 1, 5, 64])], None)
+    # products of element-less operands n x 0 . 0 x m: the overflowing result shape is cheap to ask for
+    for es in (1, 8, 16):
+        for (n, m) in (pairs if tier != 'quick' else rng.sample(pairs, 250) + [(2**40, 2**40), (2**32, 2**32), (2**31, 2**31), (1, IMAX), (IMAX // 8 + 1, 1)]):
+            want = expect_decision(es, n, m)
+            if want.startswith('Some') and n * m > 2048:
+                continue
+            for (o1, o2) in ((0, 0), (0, 1), (1, 0), (1, 1)):
+                add('multiply', [es, n, m, o1, o2], want)
+                if es == 8:
+                    add('mul_like', [es, n, m, o1, o2], want)
+    for c_ in cases:
+        if c_.meta.get('want') is None:
+            fn, a = c_.fn, c_.args
+            c_.meta['want'] = f'Some([1,{a[3]},{a[3]}])'
+    return cases
+
+
+def oracle_K(case, hlines):
+    """direct oracle: 128-bit reference arithmetic; a failing call must not request the result buffer"""
+    out = []
+    if not hlines:
+        return [dict(kind='oracle', op_index=0, op=case.fn, detail='no output')]
+    line = hlines[0]
+    if line.startswith('CRASH'):
+        return [dict(kind='oracle', op_index=0, op=case.fn, detail=f'process died: {line}', observed=line, expected=case.meta.get('want'))]
+    obs, _, alloc = line.partition(' maxalloc=')
+    want = case.meta.get('want')
+    if want is not None and obs != want:
+        out.append(dict(kind='oracle', op_index=0, op=case.fn, observed=obs, expected=want,
+                        detail=f'{case.fn}({", ".join(map(str, case.args))}) decided differently from exact arithmetic'))
+    if obs.startswith('Err(') and alloc and int(alloc) > (1 << 20):
+        out.append(dict(kind='oracle', op_index=0, op=case.fn, observed=line, detail='a failing call requested a large allocation'))
+    return out
+
+
+def compare_K(case, hlines, mlines):
+    f = oracle_K(case, hlines)
+    if hlines and mlines and not hlines[0].startswith('CRASH'):
+        obs = hlines[0].partition(' maxalloc=')[0]
+        if obs != mlines[0]:
+            f.append(dict(kind='model', op_index=0, op=case.fn, observed=obs, expected=mlines[0],
+                          detail=f'{case.fn}({", ".join(map(str, case.args))}): implementation and proved model disagree'))
+    return f
+
+
+SUITES['C08'] = dict(gen=gen_C08, files=['src/shape.rs', 'src/lib.rs', 'src/construct.rs', 'src/convert.rs', 'src/arithmetic.rs', 'src/arithmetic/mul.rs', 'src/parallel.rs'],
+                     both_profiles=True,
+                     rule='all pairs of boundary values (0..3, 2^16, 2^31..2^33, isize::MAX/size_of::<T>() +-1, isize::MAX +-1, usize::MAX) x element sizes 0,1,2,4,8,16,24 '
+                          'through check_size, try_to_axis_shape, the five shape-taking entry points, TryFrom, reshape, the eight mapping-style operations and the two products; '
+                          'non-trivial = distinct (function, arguments); successes only where the call is O(1) or small')
